@@ -25,6 +25,7 @@ INVARIANTS
   DoneDelivered
   Integrity
   NoSurplus
+  NeverTwice
   HeldAtMostTwo
   FragBound
   LastFlagRight
